@@ -839,7 +839,8 @@ class Interp:
         if shape is not None:
             self.feat("array-shape")
             if len(shape) != 2:
-                raise OOD("declared shape is not two-dimensional")
+                # arrays are two-dimensional: a declared shape with one or three numbers contradicts every array
+                raise IllFormed("array-shape-mismatch", name, first.line, first.col, "declared shape %r" % (shape,))
         if bare_param is not None:
             raise OOD("whole-array parameter without indentation")
         if not rows:
@@ -968,6 +969,8 @@ class Interp:
             for k, v in op.kwargs:
                 if not (isinstance(v, V) and v.k in "if"):
                     raise OOD("non-real value bound to an include parameter")
+                if v.k == "i" and not isinstance(v.v, int):
+                    raise OOD("non-int integer")
                 asg[("param", k)] = v
         else:
             if sparams:
@@ -1102,6 +1105,8 @@ def subst(value, asg):
         if rest or value.regs():
             raise OOD("partial binding")
         r = value.evaluate(asg)
+        if value.tree[0] == "param":
+            return r     # a bare parameter receives the bound value itself: kind and sign of zero included
         return LooseV(r.k, r.v, r.e)
     if isinstance(value, list):
         return [subst(x, asg) for x in value]
